@@ -97,7 +97,14 @@ fn wait_for_child_done(fds: &[c_int], child_pid: pid_t) -> i32 {
                 // Child closed pipe without sending a byte - get the process exit_status
                 let mut status: libc::c_int = -1i32;
                 libc::waitpid(child_pid, &mut status, 0);
-                libc::WEXITSTATUS(status)
+                if libc::WIFEXITED(status) {
+                    libc::WEXITSTATUS(status)
+                } else {
+                    // The child was terminated by a signal (e.g. SIGABRT, SIGSEGV, SIGKILL), in
+                    // which case the exit-status bits are zero. Report failure the way a shell
+                    // would.
+                    128 + libc::WTERMSIG(status)
+                }
             }
         }
     }
